@@ -108,5 +108,24 @@ CHECKS = {
           "types). Well-formedness of the bytes and the zeep client are exercised, not proved; populate_interface is not modelled.",
   'technique': 'Coq proof over a Gallina model of the WSDL/XSD emitters + fail-closed ast translator (wsdlgen) + model-vs-bytes correspondence + byte oracle (references, hash seeds, zeep)',
  },
+ 'C11': {
+  'text': "Theorems over an executable model of Spyne's method registry and request routing (decorator naming, ServiceMeta, "
+          "check_unique_method_keys, populate_interface/process_method, get_call_handles, every protocol's "
+          "method_request_string, HttpBase's pattern list and match_pattern), for ALL applications, names and requests: in "
+          "every application that constructs, a request naming n through any channel (XML root tag / SOAP body child, "
+          "dict-document single key, msgpack-rpc field, HttpPattern, last URL segment) runs exactly the one primary method "
+          "registered as n followed by its auxiliary methods, each once, and nothing else; a name nothing is registered under "
+          "(case, prefix, suffix, another namespace) runs nothing and yields ResourceNotFound; construction succeeds under "
+          "conditions that do not mention order, so every permutation of the service list constructs iff it did and routes "
+          "every request identically; two primary methods of one name, and two methods carrying the same HttpPattern, are "
+          "rejected. The routing tokens of the source are extracted on every run by a fail-closed translator and proved to "
+          "render the model's strings and branches; ~2,800 constructions (all permutations) and ~17,000 driven requests per run.",
+  'design_ref': 'DESIGN.md section 6 (C11)',
+  'note': TB + "Modelled, not verified: lxml .tag, json/msgpack key decoding, re full-match restricted to literal addresses "
+          "with <name> placeholders and literal non-empty verbs, host=None. @mrpc member methods, headers, non-WSGI servers, "
+          "ThreadAuxProc and HttpRpc POST are not driven. Order-independence of the HTTP pattern list assumes auxiliary "
+          "methods carry no HttpPatterns. Five defects repaired; no open finding.",
+  'technique': 'Coq proof over a Gallina model of registry + routing + source-extracted routing tokens (routekeys translator) + differential correspondence over applications x permutations x protocols + invocation-counter oracle',
+ },
 }
 NOT_APPLICABLE = {}
